@@ -40,7 +40,7 @@ var allTypeURLs = []string{urlCCTP, urlHyp, urlInternal, urlFee, "/cosmos.bank.v
 var allEnumNames = []string{"PROTOCOL_UNSUPPORTED", "PROTOCOL_IBC", "PROTOCOL_CCTP", "PROTOCOL_HYPERLANE", "PROTOCOL_INTERNAL", "ACTION_UNSUPPORTED", "ACTION_FEE", "ACTION_SWAP", "PROTOCOL_FOO", ""}
 
 func (w *World) c14States() (names []string, build []func(ctx sdk.Context)) {
-	names = []string{"W0", "S1(stats near 2^256, params 64)", "S2(pauses)", "S3(deposits+history)"}
+	names = []string{"W0", "S1(stats near 2^256, params 64)", "S2(pauses)", "S3(deposits+history, stats above MaxInt64)"}
 	build = []func(ctx sdk.Context){
 		func(ctx sdk.Context) {},
 		func(ctx sdk.Context) { w.Apply(ctx, OpEnv("seed-stats-top")); w.Apply(ctx, w.OpUpdateParams(64)) },
@@ -53,6 +53,7 @@ func (w *World) c14States() (names []string, build []func(ctx sdk.Context)) {
 			w.Apply(ctx, w.OpDeposit(w.Orb, denomUSDC, 5))
 			w.Apply(ctx, w.OpDeposit(w.Orb, denomIGP, 5000))
 			w.Apply(ctx, w.OpUpdateParams(4294967295))
+			w.Apply(ctx, OpEnv("seed-stats-int64"))
 			w.Apply(ctx, w.OpRecv("t", TransferSpec{"channel-1", denomUSDC, "777", w.Orb.String(), w.FwdHyp(1), nil}.Pkt()))
 		},
 	}
@@ -270,6 +271,12 @@ func checkC14(tier string) *Report {
 				return mustJSON(map[string]any{"state": stateNames[si], "ops": []Op{{Label: trunc(in.label, 200), Pkt: &pkt}}, "expect": []replayExpect{{Kind: "no_panic", Want: true}}})
 			}
 			switch {
+			case r.Panic != "" && func() bool {
+				// third-party: the orbiter-free reference stack panics at the same site on the same packet
+				rr := RecvOn(w.Ref, Branch(ws[w].ctxs[si]), in.pkt)
+				return rr.Panic != "" && panicSite(rr.Panic) == panicSite(r.Panic)
+			}():
+				rep.Outcome("panic-in-wrapped-application-also-without-orbiter(third-party)")
 			case r.Panic != "":
 				rep.Outcome("panic")
 				rep.Violate(Violation{Kind: "panic", Group: group + " " + panicSite(r.Panic), Sig: sig + " | " + panicSite(r.Panic), Replay: replay(),
